@@ -167,6 +167,25 @@ Section Secure.
     rewrite pre_read_true. destruct (read_body zres kc true w2); cbn; auto.
   Qed.
 
+  (* call_flow is the client's pre-write hook followed by serve_call on what was written *)
+  Lemma call_flow_server_half kc ks q h xs1 ob1 w1 :
+    pre_write kc true (q_secure V q) false (q_arg V q) = WOk V xs1 ob1 -> wire_body ob1 = Some w1 ->
+    let o := call_flow kc ks q h in
+    let s := serve_call key V zarg mar unm enc dec keyver wrap unwrap ks xs1 (q_accept V q) w1 h in
+    c_handler_arg V o = s_handler_arg V s /\ c_rep_secure V o = s_rep_secure V s /\
+    c_rep_wire V o = s_rep_wire V s /\
+    (s_status V s <> SOk -> c_status V o = s_status V s).
+  Proof.
+    intros Hw Hb. cbn zeta. unfold Secure.call_flow, Secure.serve_call. rewrite Hw, Hb.
+    destruct (pre_read xs1 (q_accept V q)) as [[use1 acc] m1].
+    destruct (read_body zarg ks use1 w1); try (cbn; auto; fail).
+    destruct (negb (h_ok V h)); [cbn; auto|].
+    destruct (pre_write ks true (h_secure V h) acc (h_fun V h v)); [|cbn; auto].
+    destruct (wire_body b); [|cbn; auto].
+    destruct (pre_read xs None) as [[use2 a2] m2].
+    destruct (read_body zres kc use2 b0); cbn; repeat split; auto; intros X; congruence.
+  Qed.
+
   (* no marker anywhere: the plugin is invisible, for any pair of keys *)
   Lemma unmarked_is_plain kc ks q h :
     is_lit (q_secure V q) "true" = false -> is_lit (q_accept V q) "true" = false ->
